@@ -476,7 +476,7 @@ err_t btokBAuthCTStep4(octet out[], const octet in[], void* state)
 	beltHashStart(stack);
 	beltHashStepH(s->R, no / 2, stack);
 	if (s->settings->kcb)
-  	beltHashStepH(in + 8, no / 2, stack);
+  	beltHashStepH(in + 8, 16, stack);
 	if (s->settings->helloa)
 		beltHashStepH(s->settings->helloa, s->settings->helloa_len, stack);
 	if (s->settings->hellob)
